@@ -143,6 +143,13 @@ func (u *Unit) verify() (err error) {
 			o := u.oblige(r.st, "post", c.Label, site, goal, r.pos)
 			o.Props = c.Props
 		}
+		for _, a := range con.Assigns {
+			if strings.HasPrefix(a, "ghost ") {
+				if name := strings.TrimSpace(a[6:]); u.eng.monotone[name] {
+					u.oblige(r.st, "post", "monotone$"+name, site, sx(">=", u.heap(r.st, "g$"+name, SInt), u.heap(u.entry, "g$"+name, SInt)), r.pos)
+				}
+			}
+		}
 		if con.HasFrame {
 			u.frameObligations(r, con, pkg)
 		}
@@ -249,7 +256,7 @@ func (u *Unit) parseAssign(env *Env, a string) assignLoc {
 			for k := 0; k < st.NumFields(); k++ {
 				hs = append(hs, u.fieldHeapName(t, st.Field(k).Name()))
 				ss = append(ss, arrSort(SInt, u.ty.sortOf(st.Field(k).Type())))
-				if isPointerLike(st.Field(k).Type()) {
+				if isRefLike(st.Field(k).Type()) {
 					u.refHeaps[u.fieldHeapName(t, st.Field(k).Name())] = true
 				}
 			}
@@ -257,7 +264,7 @@ func (u *Unit) parseAssign(env *Env, a string) assignLoc {
 		}
 		for k := 0; k < st.NumFields(); k++ {
 			if st.Field(k).Name() == fname {
-				if isPointerLike(st.Field(k).Type()) {
+				if isRefLike(st.Field(k).Type()) {
 					u.refHeaps[u.fieldHeapName(t, fname)] = true
 				}
 				return assignLoc{kind: kind, heap: []string{u.fieldHeapName(t, fname)}, sorts: []Sort{arrSort(SInt, u.ty.sortOf(st.Field(k).Type()))}}
@@ -400,6 +407,13 @@ func (u *Unit) applyContract(st *State, con *Contract, args []TV, instr ssa.Inst
 	}
 	pre := st.clone()
 	u.applyFrameHavoc(st, env, con)
+	for _, a := range con.Assigns {
+		if strings.HasPrefix(a, "ghost ") {
+			if name := strings.TrimSpace(a[6:]); u.eng.monotone[name] {
+				u.s.assume(implies(st.reach, sx(">=", u.heap(st, "g$"+name, SInt), u.heap(pre, "g$"+name, SInt))))
+			}
+		}
+	}
 	res := u.freshResults(st, sig, mangle(short))
 	for i, r := range res {
 		u.s.assume(implies(st.reach, u.ty.rangeFact(r, sig.Results().At(i).Type(), u.alloc(st))))
